@@ -80,6 +80,12 @@ TComplete == (AtQuiesce /\ delivered # {} /\ ~disturbed) =>
                 /\ obs.verified /\ obs.file = "good" /\ obs.completed = 1
                 /\ \A w \in guardedw : obs.closed[w] /\ ~obs.pending[w]
 
+\* a lying peer cannot take an honest one down: a writer opened the callers' way is shut down only by its own data
+\* (it reached or exceeded the announced length), by a delivered correct copy, or by close()/delete()
+OwnEnd(w) == decl > 0 /\ sofar[w] >= decl
+TNoCollateral == \A w \in guardedw :
+                   (obs.closed[w] /\ ~obs.pending[w]) => (OwnEnd(w) \/ delivered # {} \/ disturbed)
+
 Reached == TLCSet(tid, IF TLCGetOrDefault(tid, 1) > l THEN TLCGetOrDefault(tid, 1) ELSE l)
 Report == TLCGet("stats").diameter >= 0 /\ \A t \in 1..Len(TraceLog) :
             PrintT(<<"TRACE", t, IF TLCGetOrDefault(t, 1) - 1 = Len(TraceLog[t].ev) THEN "accepted" ELSE "rejected", TLCGetOrDefault(t, 1) - 1, Len(TraceLog[t].ev)>>)
